@@ -20,6 +20,7 @@ pub mod c18;
 pub mod c19;
 pub mod c20;
 pub mod c21;
+pub mod c22;
 pub mod c23;
 pub mod c25;
 pub mod c26;
@@ -50,6 +51,7 @@ pub fn run(ctx: &Ctx, id: &str) -> bool {
         "C19" => c19::run(ctx),
         "C20" => c20::run(ctx),
         "C21" => c21::run(ctx),
+        "C22" => c22::run(ctx),
         "C23" => c23::run_c23(ctx),
         "C24" => c23::run_c24(ctx),
         "C25" => c25::run(ctx),
